@@ -172,27 +172,106 @@ def rule_shape(chk, head2, test2):
         and any(t.kind == "test" and unparse(t.exprs[0]) == "self._extraValidator is not None" and lab == "true" for t, lab in fcfg.guards_of(ec[0])) \
         and fcfg.must_pass([fcfg.entry], [fcfg.exit], ec, avoid_edges={(t, "false") for t in fcfg.live if t.kind == "test" and unparse(t.exprs[0]) == "self._extraValidator is not None"})[0]
     chk.req(okfv, "C14.shape", "Field.validate:serializer-then-extra-validator", chk.where(fv), good="serializer(input) always; extraValidator(input) when present", fail="Field.validate does not run the serializer and then the extra validator (when present) on the value")
-    fval = ctx.func("_validation", "Field.forValue.validate")
-    t = " ".join(unparse(s) for s in fval.node.body)
-    chk.req("!= value" in t and "raise ValidationError" in t and len(fval.node.body) == 1, "C14.shape", "Field.forValue:validator-compares-with-the-fixed-value", chk.where(fval), good="raise unless checked == value", fail="forValue's validator is %s" % t[:80])
-    ft = ctx.func("_validation", "Field.forTypes.validate")
-    t = " ".join(unparse(s) for s in ft.node.body)
-    okft = "not isinstance(value, fixedClasses)" in t and "raise ValidationError" in t
+    from .. import exprs as X
+
+    def installed_validator(outer):
+        """the nested function handed to the Field constructor as its extra validator (4th positional / extraValidator=) on the single return"""
+        rets = [n for n in iter_own_nodes(outer.node) if isinstance(n, ast.Return)]
+        if len(rets) != 1 or not isinstance(rets[0].value, ast.Call):
+            return None
+        call = rets[0].value
+        cand = None
+        for k in call.keywords:
+            if k.arg == "extraValidator":
+                cand = k.value
+        if cand is None and len(call.args) >= 4:
+            cand = call.args[3]
+        cand = X.inline(outer, cand) if cand is not None else None
+        if isinstance(cand, ast.Name):
+            for g in outer.nested.values():
+                if not g.is_lambda and g.name == cand.id:
+                    return g
+        return None
+
+    def raises_validation_error_unless(g, accept):
+        """g raises ValidationError exactly on the branch where accept(test expr, label) says the check failed; returns list of problems"""
+        cfg = ctx.cfg(g)
+        raises = [n for n in cfg.live if n.kind == "raise_stmt" and n.ast.exc is not None and "ValidationError" in unparse(n.ast.exc.func if isinstance(n.ast.exc, ast.Call) else n.ast.exc)]
+        if not raises:
+            return ["the validator never raises ValidationError"]
+        out = []
+        for rn in raises:
+            gs = [(X.inline(g, t.exprs[0]), lab) for t, lab in cfg.guards_of(rn) if t.kind == "test"]
+            if not any(accept(*X.strip_not(e, lab)) for e, lab in gs):
+                out.append("ValidationError raised under %s" % [(unparse(e)[:40], lab) for e, lab in gs])
+        # and the failing branch cannot reach the normal exit without raising
+        for t in [t for t in cfg.live if t.kind == "test"]:
+            for lab in ("true", "false"):
+                if accept(*X.strip_not(X.inline(g, t.exprs[0]), lab)):
+                    for s_, l in t.succ:
+                        if l == lab and cfg.exit in cfg.reach([s_], skip_labels=("exc",)):
+                            out.append("a value failing the check can pass without ValidationError")
+        return out
+
+    fvo = ctx.func("_validation", "Field.forValue")
+    fval = installed_validator(fvo)
+    chk.req(fval is not None, "C14.shape", "Field.forValue:fixed-value-check-is-installed", chk.where(fvo), good="the Field is built with the fixed-value validator", fail="forValue does not install its fixed-value validator")
+    if fval is not None:
+        vparam = fvo.pos_params[2]
+        cp = fval.pos_params[0]
+
+        def differs(e, lab):
+            op = X.compare_of(e, lambda x: isinstance(x, ast.Name) and x.id == cp, lambda x: isinstance(x, ast.Name) and x.id == vparam)
+            return (op is ast.NotEq and lab == "true") or (op is ast.Eq and lab == "false")
+        pr = raises_validation_error_unless(fval, differs)
+        chk.req(not pr and not stores_to_name(fvo, vparam), "C14.shape", "Field.forValue:validator-compares-with-the-fixed-value", chk.where(fval), good="raise unless checked == value", fail="forValue's validator: %s" % "; ".join(pr))
     outer = ctx.func("_validation", "Field.forTypes")
-    t2 = " ".join(unparse(s) for s in outer.node.body)
-    okft = okft and "type(None)" in t2 and "fixedClasses.append(k)" in t2 and "tuple(fixedClasses)" in t2
-    rets = [n for n in iter_own_nodes(outer.node) if isinstance(n, ast.Return)]
-    okwire = len(rets) == 1 and isinstance(rets[0].value, ast.Call) and any(k.arg == "extraValidator" and isinstance(k.value, ast.Name) and k.value.id == ft.name for k in rets[0].value.keywords)
-    if not okwire and len(rets) == 1 and isinstance(rets[0].value, ast.Call) and len(rets[0].value.args) >= 4:
-        okwire = isinstance(rets[0].value.args[3], ast.Name) and rets[0].value.args[3].id == ft.name
-    chk.req(okwire, "C14.shape", "Field.forTypes:type-check-is-always-installed", chk.where(outer),
+    ft = installed_validator(outer)
+    chk.req(ft is not None, "C14.shape", "Field.forTypes:type-check-is-always-installed", chk.where(outer),
             good="the Field is built with extraValidator=<the isinstance check> (which then calls the caller's validator)",
             fail="the isinstance type check is not (always) the Field's validator: with a caller-supplied extra validator wrong-typed values are accepted")
-    fvo = ctx.func("_validation", "Field.forValue")
-    rets = [n for n in iter_own_nodes(fvo.node) if isinstance(n, ast.Return)]
-    okwire = len(rets) == 1 and isinstance(rets[0].value, ast.Call) and ((len(rets[0].value.args) >= 4 and isinstance(rets[0].value.args[3], ast.Name) and rets[0].value.args[3].id == fval.name)
-                                                                            or any(k.arg == "extraValidator" and isinstance(k.value, ast.Name) and k.value.id == fval.name for k in rets[0].value.keywords))
-    chk.req(okwire, "C14.shape", "Field.forValue:fixed-value-check-is-installed", chk.where(fvo), good="the Field is built with the fixed-value validator", fail="forValue does not install its fixed-value validator")
+    okft = False
+    if ft is None:
+        ft = outer
+    else:
+        cparam = outer.pos_params[2]
+        vp = ft.pos_params[0]
+        tnames = set()
+
+        def not_instance(e, lab):
+            if isinstance(e, ast.Call) and isinstance(e.func, ast.Name) and e.func.id == "isinstance" and len(e.args) == 2 and isinstance(e.args[0], ast.Name) and e.args[0].id == vp \
+                    and isinstance(e.args[1], ast.Name):
+                tnames.add(e.args[1].id)
+                return lab == "false"
+            return False
+        pr = raises_validation_error_unless(ft, not_instance)
+        # the class tuple is the given classes with None -> NoneType, nothing dropped
+        okt = False
+        ocfg = ctx.cfg(outer)
+        for tn in tnames:
+            vals = [v for v in assigned_values(outer, tn) if v is not None]
+            # last binding: tuple(<list name>) or a comprehension over the classes parameter
+            for v in vals:
+                if isinstance(v, ast.Call) and isinstance(v.func, ast.Name) and v.func.id in ("tuple", "list") and len(v.args) == 1:
+                    src = v.args[0]
+                    if isinstance(src, (ast.GeneratorExp, ast.ListComp)) and len(src.generators) == 1 and not src.generators[0].ifs \
+                            and isinstance(src.generators[0].iter, ast.Name) and src.generators[0].iter.id == cparam and "type(None)" in unparse(src.elt):
+                        okt = True
+                    if isinstance(src, ast.Name):
+                        lname = src.id
+                        loops = [n for n in ocfg.live if n.kind == "for_next" and isinstance(n.ast.iter, ast.Name) and n.ast.iter.id == cparam and isinstance(n.ast.target, ast.Name)]
+                        for lp in loops:
+                            kv = lp.ast.target.id
+                            region = common.loop_region(ocfg, lp)
+                            apps = [n for n in region for c, _m in calls_in_node(n) if isinstance(c.func, ast.Attribute) and c.func.attr == "append" and isinstance(c.func.value, ast.Name)
+                                    and c.func.value.id == lname and len(c.args) == 1 and isinstance(c.args[0], ast.Name) and c.args[0].id == kv]
+                            none_fix = [n for n in region if isinstance(n.ast, ast.Assign) and isinstance(n.ast.targets[0], ast.Name) and n.ast.targets[0].id == kv and unparse(n.ast.value) == "type(None)"
+                                        and any(t.kind == "test" and X.compare_of(X.strip_not(t.exprs[0], lab)[0], lambda x: isinstance(x, ast.Name) and x.id == kv, lambda x: X.is_const(x, None)) is not None
+                                                for t, lab in ocfg.guards_of(n))]
+                            body = [s_ for s_, l in lp.succ if l == "body"]
+                            if apps and none_fix and ocfg.must_pass(body, [lp], apps, skip_labels=("exc",))[0] and not any(n.kind in ("break", "continue") for n in region):
+                                okt = True
+        okft = not pr and okt
     chk.req(okft, "C14.shape", "Field.forTypes:isinstance-of-exactly-the-given-classes", chk.where(ft), good="isinstance(value, <given classes, None -> NoneType>)", fail="forTypes' validator is not an isinstance test against exactly the given classes")
 
 
@@ -206,29 +285,10 @@ def rule_emit(chk):
     MT, RE, EX = p.fold_global(msg, "MESSAGE_TYPE_FIELD"), p.fold_global(msg, "REASON_FIELD"), p.fold_global(msg, "EXCEPTION_FIELD")
     reserved = set(p.fold_global(p.mod("_validation"), "RESERVED_FIELDS"))
     at = ctx.func("_validation", "ActionType.__init__")
-    # implicit fields per list variable
-    lists = {}
-    helper_status = {}
-    for n in iter_own_nodes(at.node):
-        if isinstance(n, ast.Assign) and isinstance(n.targets[0], ast.Name) and n.targets[0].id in ("startFields", "successFields", "failureFields"):
-            v = n.value
-            elts = v.right.elts if isinstance(v, ast.BinOp) and isinstance(v.right, ast.List) else (v.elts if isinstance(v, ast.List) else [])
-            keys = {}
-            for e in elts:
-                if isinstance(e, ast.Name) and e.id == "actionTypeField":
-                    keys[AT] = "<type>"
-                elif isinstance(e, ast.Call) and isinstance(e.func, ast.Name) and e.func.id == "makeActionStatusField":
-                    ok, val = ctx.try_fold(at, e.args[0])
-                    keys[AS] = val if ok else None
-                elif isinstance(e, ast.Name):
-                    r = p.resolve_name(at.module, at, e.id)
-                    if r[0] == "modvar":
-                        vals = [x for x in r[1].assigns.get(r[2], []) if isinstance(x, ast.Call)]
-                        if vals and vals[0].args:
-                            ok, k = ctx.try_fold(r[1], vals[0].args[0])
-                            if ok:
-                                keys[k] = "<field>"
-            lists[n.targets[0].id] = keys
+    from . import c13
+    raw = c13.action_type_field_lists(ctx) or {}
+    names = {"start": "startFields", "success": "successFields", "failure": "failureFields"}
+    lists = {names[k]: dict(v["fields"], **({"<unrecognised>": v["unknown"]} if v["unknown"] else {})) for k, v in raw.items()}
     want = {"startFields": {AT: "<type>", AS: ST["STARTED_STATUS"]}, "successFields": {AT: "<type>", AS: ST["SUCCEEDED_STATUS"]},
             "failureFields": {AT: "<type>", AS: ST["FAILED_STATUS"], RE: "<field>", EX: "<field>"}}
     chk.req(lists == want, "C14.emit", "ActionType.__init__:implicit-fields-per-message-kind", chk.where(at), good="start/success/failure serializers declare action_type + the matching status (+ reason, exception)",
